@@ -253,3 +253,19 @@ def changed_flags(O):
             flag = eng.scalar(eng.elem(out, bv64(k)), "bool")
             R.prove(O, p, z3.And(z3.Implies(ptag == bv64(0), flag), z3.Implies(ptag == bv64(1), flag == z3.Not(same))),
                     "flag %d is true iff the entry differs from the previous row (always true for the first row)" % k)
+
+
+@obligation("C06/previous-row-recorded", desc="get_row (through the crate's own constructor, one input column): the row just "
+            "produced is what the iterator remembers for the next row's changed flags - recorded when the row is produced, "
+            "i.e. before and independent of that row's driver call")
+def previous_row_recorded(O):
+    from . import C05
+    C05.prev_recorded(O, rep())
+
+
+@obligation("C06/rows-by-name[output column first]", desc="get_row sequences for the header `out in` against the signal list "
+            "`in out` (every kind combination, all values and widths): each column's entry goes to the signal of that name - an "
+            "X under the output's name is an expected X, an X / C under the input's name is expanded")
+def rows_by_name(O):
+    from . import C05
+    C05.run_layout(O, C05.Layout("exp in", ["exp", "in"], [1, 0]), 7, rep=rep())
